@@ -1,9 +1,239 @@
-/- Driver handlers, group Fmt (stub; filled in by the group's model). -/
+/-
+  Driver handlers, group Fmt (C18 formatting pipeline, C14 annotations).
+  Text crosses the line protocol as JSON strings; numbers as exact rationals.
+-/
 import CC.Driver.Json
-import CC.Driver.LinAlg
+import CC.Model.Fmt
+import CC.Spec.Fmt
+import CC.Model.Annot
+namespace CC.DFmt
+open Lean CC CC.Fmt
+
+def jsonChars (l : List Char) : Json := Json.str (String.ofList l)
+def getChars (j : Json) (k : String) : Except String (List Char) := do pure (← getStr j k).toList
+def getInt (j : Json) (k : String) : Except String Int := do (← j.getObjVal? k).getInt?
+def getBoolD (j : Json) (k : String) (d : Bool) : Bool := (getBool j k).toOption.getD d
+
+def getTable (j : Json) (k : String) : Except String Table := do
+  let a ← getArr j k
+  a.toList.mapM fun e => do
+    match e with
+    | .arr #[kk, vv] => pure ((← kk.getInt?), (← vv.getStr?).toList)
+    | _ => throw "table entry [int, str] expected"
+
+def getSFCfg (j : Json) : Except String SFCfg := do
+  let usePrefix := getBoolD j "use_prefix" CC.Gen.Fmt.sf_use_exp_prefix_default
+  let table ← match j.getObjVal? "table" with
+    | .ok .null | .error _ => pure CC.Gen.Fmt.sf_exp_prefixes_default
+    | .ok _ => getTable j "table"
+  pure { unit := ← getChars j "unit", precision := ← getNat j "precision", usePrefix := usePrefix, table := table }
+
+/-- relative distances of the model's rounding arguments from a tie (guard of the agreement
+relation: below 2^-40 a float computation may legitimately round the other way) -/
+def tieMargins (v : Rat) (p : Nat) : List Rat :=
+  let a := qabs v
+  if a = 0 then [] else
+  let e := exponent v p
+  let x := a / pow10 e
+  let m1 := tieDist x / x
+  let s := floatToString p a
+  if s.intPart = 0 then
+    let y := a * pow10 s.lz * pow10 p
+    [m1, tieDist y / y]
+  else [m1]
+
+def jsonF3 (f : F3) : Json :=
+  Json.mkObj [("exponent", Json.num f.exponent), ("mantissa", Json.num f.mantissa),
+    ("exponent3", Json.num f.exponent3), ("mantissa3", jsonRat f.mantissa3),
+    ("is_inf", f.isInf), ("is_zero", f.isZero)]
+
+/-- op `fmt_sf`: `str(ScientificFloat(v, unit, precision, use_prefix, table))` -/
+def h_fmt_sf : Handler := fun j => do
+  let c ← getSFCfg j
+  let v ← getRatK j "v"
+  pure (Json.mkObj [("s", jsonChars (c.str v)), ("f3", jsonF3 (c.value3 v)),
+    ("margins", Json.arr ((tieMargins v c.precision).map jsonRat).toArray)])
+
+/-- op `fmt_sc`: `str(ScientificComplex(...))`; `abs`, `angle` are the implementation's own -/
+def h_fmt_sc : Handler := fun j => do
+  let c ← getSFCfg j
+  let sc : SCCfg := { c with compact := getBoolD j "compact" false, polar := getBoolD j "polar" false,
+                             deg := getBoolD j "deg" false }
+  let re ← getRatK j "re"; let im ← getRatK j "im"
+  let absV ← getRatK j "abs"; let ang ← getRatK j "angle"
+  let margins := if sc.polar then tieMargins absV c.precision
+                 else tieMargins re c.precision ++ tieMargins im c.precision
+  pure (Json.mkObj [("s", jsonChars (sc.str re im absV ang)),
+    ("re_zero", (c.value3 (qabs re)).isZero), ("im_zero", (c.value3 (qabs im)).isZero),
+    ("margins", Json.arr (margins.map jsonRat).toArray)])
+
+def scCall? (fn : String) : Option CallCfg :=
+  match fn with
+  | "print_resistance" => some CC.Gen.Fmt.print_resistance_call0
+  | "print_conductance" => some CC.Gen.Fmt.print_conductance_call0
+  | "print_impedance" => some CC.Gen.Fmt.print_impedance_call0
+  | _ => none
+
+def sfCall? (fn : String) : Option CallCfg :=
+  match fn with
+  | "print_capacitance" => some CC.Gen.Fmt.print_capacitance_call0
+  | "print_inductance" => some CC.Gen.Fmt.print_inductance_call0
+  | _ => none
+
+def ratD (j : Json) (k : String) : Rat := (getRatK j k).toOption.getD 0
+
+/-- op `fmt_display`: the `Display.print_*` helper named `fn` -/
+def h_fmt_display : Handler := fun j => do
+  let fn ← getStr j "fn"
+  let p ← getNat j "precision"
+  let unit := (getChars j "unit").toOption.getD []
+  let s ← match fn with
+    | "print_complex" =>
+      pure (printComplex (ratD j "re") (ratD j "im") (ratD j "abs") (ratD j "angle") unit p
+        (getBoolD j "polar" false) (getBoolD j "deg" false))
+    | "print_abs" => pure (printAbs (ratD j "abs") unit p)
+    | "print_real" => pure (printReal (ratD j "re") unit p)
+    | "print_sinosoidal" =>
+      pure (printSinusoidal (ratD j "abs") (ratD j "phase") (ratD j "phase_deg") (ratD j "w") (ratD j "w_hz")
+        unit p (getBoolD j "sin" false) (getBoolD j "deg" false) (getBoolD j "hertz" false))
+    | "print_active_power" => pure (printActivePower (ratD j "re") p)
+    | "print_active_reactive_power" => pure (printActiveReactivePower (ratD j "re") (ratD j "im") p)
+    | _ =>
+      match scCall? fn, sfCall? fn with
+      | some k, _ => pure (printSC k (ratD j "re") (ratD j "im") p)
+      | _, some k => pure (printSF k (ratD j "re") p)
+      | _, _ => throw s!"unknown display helper {fn}"
+  pure (Json.mkObj [("s", jsonChars s)])
+
+def jsonParsed (q : Parsed) : Json :=
+  Json.mkObj [("neg", q.neg), ("int", Json.num (q.intPart : Int)), ("frac", Json.num (q.fracNum : Int)),
+    ("frac_len", Json.num (q.fracLen : Int)), ("exp_e", Json.num q.expE), ("pfx", Json.num q.pfxKey),
+    ("value", jsonRat q.value), ("mant", jsonRat q.mant)]
+
+def jsonText : Option Text → Json
+  | none => Json.null
+  | some (.inf neg) => Json.mkObj [("inf", true), ("neg", neg)]
+  | some (.num q) => jsonParsed q
+
+/-- relative allowance of the oracle for float arithmetic inside the pipeline: 2^-40 -/
+def oracleTol : Rat := 1 / 1099511627776
+
+def jsonFailures (l : List String) : Json := Json.arr (l.map Json.str).toArray
+
+/-- op `fmt_parse`: the reader alone -/
+def h_fmt_parse : Handler := fun j => do
+  pure (Json.mkObj [("parsed", jsonText (parseBack (← getChars j "unit") (← getChars j "s")))])
+
+/-- op `fmt_spec_real`: C18 on one displayed real value (oracle) -/
+def h_fmt_spec_real : Handler := fun j => do
+  let v ← getRatK j "v"
+  let p ← getNat j "precision"
+  let maxExp ← getInt j "max_exp"
+  let t := parseBack (← getChars j "unit") (← getChars j "s")
+  if v = 0 then throw "fmt_spec_real: the property does not quantify over v = 0"
+  pure (Json.mkObj [("failures", jsonFailures (realFailures v p maxExp t oracleTol)), ("parsed", jsonText t)])
+
+/-- a part of a complex value may be left out only if it is zero or below the smallest unit
+the prefixes can express (`|part| < 10^minExp`); a part that is shown is judged like a real
+value -/
+def partFailures (tag : String) (v : Rat) (p : Nat) (minExp maxExp : Int) (t : Option Text) : List String :=
+  match t with
+  | none =>
+    if v = 0 ∨ qabs v < pow10 minExp then [] else [s!"{tag}:omitted_inside_range"]
+  | some t =>
+    if v = 0 then
+      match t with
+      | .num q => if q.value = 0 then [] else [s!"{tag}:nonzero_text_for_zero"]
+      | .inf _ => [s!"{tag}:infinite_text_for_zero"]
+    else (realFailures v p maxExp (some t) oracleTol).map (s!"{tag}:" ++ ·)
+
+/-- op `fmt_spec_complex`: Cartesian complex text -/
+def h_fmt_spec_complex : Handler := fun j => do
+  let re ← getRatK j "re"; let im ← getRatK j "im"
+  let p ← getNat j "precision"
+  let minExp ← getInt j "min_exp"; let maxExp ← getInt j "max_exp"
+  match parseCartesian (← getChars j "unit") (← getChars j "s") with
+  | none => pure (Json.mkObj [("failures", jsonFailures ["unreadable"])])
+  | some (tr, ti) =>
+    pure (Json.mkObj [("failures", jsonFailures (partFailures "re" re p minExp maxExp tr ++ partFailures "im" im p minExp maxExp ti)),
+      ("re", jsonText tr), ("im", jsonText ti)])
+
+/-- op `fmt_spec_polar`: polar text; the harness compares the angle -/
+def h_fmt_spec_polar : Handler := fun j => do
+  let absV ← getRatK j "abs"
+  let p ← getNat j "precision"
+  let maxExp ← getInt j "max_exp"
+  match parsePolar (← getChars j "unit") (← getChars j "s") with
+  | none => pure (Json.mkObj [("failures", jsonFailures ["unreadable"])])
+  | some (t, ang, d) =>
+    pure (Json.mkObj [("failures", jsonFailures (realFailures absV p maxExp (some t) oracleTol)), ("abs", jsonText (some t)),
+      ("angle", match ang with | some a => jsonRat a | none => Json.null), ("deg_sign", d)])
+
+/-- op `fmt_helper_range`: the specified prefix range of a display helper -/
+def h_fmt_helper_range : Handler := fun j => do
+  match helperRange (← getStr j "fn") with
+  | some (a, b) => pure (Json.mkObj [("min", Json.num a), ("max", Json.num b)])
+  | none => throw "no specified range"
+
+/-! ### C14 -/
+open CC.Annot in
+def getKind (s : String) : Except String Kind :=
+  match s with
+  | "real" => pure .real | "complex" => pure .complex | "time" => pure .timeDomain
+  | _ => throw s!"unknown kind {s}"
+
+open CC.Annot in
+def getQuantity (s : String) : Except String Quantity :=
+  match s with
+  | "voltage" => pure .voltage | "current" => pure .current | "power" => pure .power | "potential" => pure .potential
+  | _ => throw s!"unknown quantity {s}"
+
+def jsonOptStr : Option String → Json
+  | some s => Json.str s
+  | none => Json.null
+
+open CC.Annot in
+/-- op `annot_text`: the adapter text for solution value `q` (and the label's arrow flag) -/
+def h_annot_text : Handler := fun j => do
+  let k ← getKind (← getStr j "kind")
+  let qt ← getQuantity (← getStr j "quantity")
+  let reverse := getBoolD j "reverse" false
+  let q ← getGQK j "q"
+  let d : Derived := { absV := ratD j "abs", angle := ratD j "angle", phase := ratD j "phase",
+                       phaseDeg := ratD j "phase_deg", w := ratD j "w", wHz := ratD j "w_hz" }
+  let o : Opts := { precision := ← getNat j "precision", polar := getBoolD j "polar" false, deg := getBoolD j "deg" false,
+                    sin := getBoolD j "sin" false, hertz := getBoolD j "hertz" false }
+  let signed := match findAdapter k qt with
+    | some a => signedValue a reverse q
+    | none => q
+  pure (Json.mkObj [("s", match annotText k qt reverse q d o with | some s => jsonChars s | none => Json.null),
+    ("signed", jsonGQ signed), ("expected", jsonGQ (specValue qt reverse q)),
+    ("arrow", match arrowReversed qt reverse (getBoolD j "element_reversed" false) with
+              | some b => Json.bool b | none => Json.null),
+    ("spec_arrow", match qt with
+      | .voltage | .current => Json.bool (specArrowReversed reverse (getBoolD j "element_reversed" false))
+      | _ => Json.null),
+    ("unit", jsonChars (specUnit qt))])
+
+open CC.Annot in
+/-- op `annot_lookup`: declared solution type ↦ constructor, kind, accepted parameters -/
+def h_annot_lookup : Handler := fun j => do
+  let ty ← getStr j "type"
+  let keys := ((getArr j "keys").toOption.getD #[]).toList.filterMap fun x => x.getStr?.toOption
+  let kindStr : Option Kind → Json := fun k => match k with
+    | some .real => "real" | some .complex => "complex" | some .timeDomain => "time" | none => Json.null
+  pure (Json.mkObj [("ctor", ctorNameOfType ty), ("kind", kindStr (declaredKind ty)), ("spec_kind", kindStr (specKind ty)),
+    ("params", jsonStrs (filterParams ty keys)),
+    ("loops", Json.arr ((CC.Gen.Annot.annotation_loops.map fun (a, b) => Json.arr #[Json.str a, Json.str b]).toArray))])
+
+def handlers : List (String × Handler) :=
+  [("fmt_sf", h_fmt_sf), ("fmt_sc", h_fmt_sc), ("fmt_display", h_fmt_display), ("fmt_parse", h_fmt_parse),
+   ("fmt_spec_real", h_fmt_spec_real), ("fmt_spec_complex", h_fmt_spec_complex),
+   ("fmt_spec_polar", h_fmt_spec_polar), ("fmt_helper_range", h_fmt_helper_range),
+   ("annot_text", h_annot_text), ("annot_lookup", h_annot_lookup)]
+
+end CC.DFmt
+
 namespace CC
-open Lean
-
-def handlersFmt : List (String × Handler) := []
-
+def handlersFmt : List (String × Handler) := CC.DFmt.handlers
 end CC
